@@ -17,6 +17,7 @@ builtins_int = _b.int
 builtins_float = _b.float
 builtins_any = _b.any
 builtins_all = _b.all
+builtins_max = _b.max
 from fractions import Fraction
 from typing import Any, Dict, Iterable, List, Optional, Sequence, Tuple
 
@@ -200,6 +201,8 @@ class E:
             return {"lt": False, "le": False, "gt": True, "ge": True, "eq": False, "ne": True}[what]
         if what in ("eq", "ne") and self.same(o):
             return what == "eq"
+        if what in ("eq", "ne") and GENERIC_DISTINCT and self.op == "var" and o.op == "var":
+            return what == "ne"
         raise TraceError(f"data-dependent comparison ({what}) on symbolic value {self}")
 
     def __lt__(self, o): return self._cmp(o, "lt")
@@ -773,9 +776,22 @@ class Tensor:
         def f(x):
             s = x._sign()
             if s is None:
-                raise TraceError("abs() of value with unknown sign")
+                return fn("abs", x)  # opaque: may only flow into tolerances, never into emitted terms
             return x if s >= 0 else -x
         return self._new(_un(f)(self.a))
+
+    def max(self, dim=None):
+        """opaque maximum of symbolic values (only for tolerances: to_coq refuses to emit it)"""
+        if dim is not None:
+            raise TraceError("max over a dimension of symbolic values")
+        vals = list(self.a.reshape(-1))
+        if builtins_all(v.is_const() for v in vals):
+            r = E.const(builtins_max(v.value() for v in vals))
+        else:
+            r = E("fn", "max", E("var", "(" + ", ".join(to_text(v) for v in vals) + ")", ()))
+        z = np.empty((), dtype=object)
+        z[()] = r
+        return self._new(z)
 
     def ceil(self):
         def f(x):
@@ -1122,6 +1138,8 @@ def inverse(x):
 
 
 GENERIC_DISTINCT = False  # set by a translator unit: syntactically different symbols are "not close"
+ASSUME_ALLCLOSE = False   # set by a translator unit: symbolic allclose() calls succeed and are LOGGED as obligations
+ALLCLOSE_LOG = []         # [(lhs ndarray, rhs ndarray)] -- the unit must emit them to be proved in Coq
 
 
 def allclose(a, b, rtol=1e-5, atol=1e-8):
@@ -1131,6 +1149,9 @@ def allclose(a, b, rtol=1e-5, atol=1e-8):
             continue
         if GENERIC_DISTINCT and x.op == "var" and y.op == "var":
             return False
+        if ASSUME_ALLCLOSE:
+            ALLCLOSE_LOG.append((av.copy(), bv.copy()))
+            return True
         if x.is_const() and y.is_const():
             if abs(x.value() - y.value()) > atol + rtol * abs(y.value()):
                 return False
